@@ -30,11 +30,11 @@ abbrev Group := List (Str × Member)
 
 def prefixes (g : Group) : List Str := g.map (·.1)
 
-/-- `HedSchemaGroup.__init__`: prefixes pairwise distinct (SCHEMA_DUPLICATE_PREFIX otherwise), not empty.
-The comparison is exact: "sc:" and "SC:" are two members (finding C13-prefix-case-collision; with
-fixes/C13_prefix_case_collision.diff the comparison is on case-folded prefixes, which is the hypothesis
-`foldS fc a ≠ foldS fc b` of `C13.separated_of_prefixes`). -/
-def wellFormed (g : Group) : Bool := !g.isEmpty && decide (prefixes g).Nodup
+/-- `HedSchemaGroup.__init__` (after fix 1a730be): not empty, and the prefixes are pairwise distinct
+*after case folding* (SCHEMA_DUPLICATE_PREFIX otherwise) — "sc:" and "SC:" cannot both be members, which is
+the hypothesis `foldS fc a ≠ foldS fc b` of `C13.separated_of_prefixes`. -/
+def wellFormed (fc : Char → Char) (g : Group) : Bool :=
+  !g.isEmpty && decide ((prefixes g).map (foldS fc)).Nodup
 
 /-- `schema_for_namespace` -/
 def lookup (g : Group) (ns : Str) : Option Member := (g.find? (fun e => e.1 == ns)).map (·.2)
@@ -206,5 +206,38 @@ def loadSamePrefix (fc : Char → Char) (std : List Name) : List (List LibEntry)
   | l :: ls => do
     let first ← place fc std std.length l
     ls.foldlM (fun cur lib => mergeInto fc cur std.length lib) first
+
+/-! ### several versions under one prefix: the header guards of `SchemaLoader.__init__` -/
+
+/-- One bundled schema file (merged form): its `withStandard` header value ("" for a standard or stand-alone
+schema) and all its tags in file order, flagged `inLibrary` or not. -/
+structure Source where
+  withStandard : Str
+  tags : List (Name × Bool)
+
+def Source.names (s : Source) : List Name := s.tags.map (·.1)
+
+/-- `_add_to_dict_base` while appending a merged file: entries without `inLibrary` are skipped -/
+def Source.libNames (s : Source) : List Name := (s.tags.filter (·.2)).map (·.1)
+
+inductive Refusal where
+  | notPartnered           -- SCHEMA_DUPLICATE_PREFIX "Loading multiple normal schemas as a merged one …"
+  | withStandardDiffers    -- BAD_WITH_STANDARD_MULTIPLE_VALUES "Merging schemas requires same withStandard value."
+  | clash (c : Clash)      -- SCHEMA_DUPLICATE_NAMES after the append
+deriving Repr, DecidableEq
+
+/-- `SchemaLoader.__init__(schema=cur)` + `_parse_data` + `has_duplicates()` of `_load_schema_version`:
+the schema appended to must be partnered, the new file must name the same partner, and afterwards no short
+name may be bound twice.  `ws` is the `withStandard` of the schema appended to. -/
+def appendSource (fc : Char → Char) (ws : Str) (cur : List Name) (s : Source) : Except Refusal (List Name) :=
+  if ws.isEmpty then .error .notPartnered
+  else if s.withStandard != ws then .error .withStandardDiffers
+  else match mergeInto fc cur cur.length (s.libNames.map fun n => (n, none)) with
+    | .ok m => .ok m
+    | .error c => .error (.clash c)
+
+/-- `_load_schema_version("a,b,…")`: the first file as it is, every further one appended -/
+def loadVersions (fc : Char → Char) (first : Source) (rest : List Source) : Except Refusal (List Name) :=
+  rest.foldlM (fun cur s => appendSource fc first.withStandard cur s) first.names
 
 end HedVerif.Group
